@@ -483,16 +483,33 @@ class GAM(Core, MetaTermMixin):
         modelmat : sparse matrix of len n_samples
             containing model matrix of the spline basis for selected features
         """
+        edge_knots, dtypes, features = self._term_domains(term)
         X = check_X(
             X,
             n_feats=self.statistics_['m_features'],
-            edge_knots=self.edge_knots_,
-            dtypes=self.dtype,
-            features=self.feature,
+            edge_knots=edge_knots,
+            dtypes=dtypes,
+            features=features,
             verbose=self.verbose,
         )
 
         return self.terms.build_columns(X, term=term)
+
+    def _term_domains(self, term=-1):
+        """
+        edge knots, dtypes and features whose fitted domain X must respect:
+        those of every term for the full model matrix (term == -1),
+        otherwise only those of the requested term
+        """
+        if term == -1:
+            return self.edge_knots_, self.dtype, self.feature
+        if self.terms[term].isintercept:
+            return None, None, None
+        return (
+            [self.terms[term].edge_knots_],
+            [self.terms[term].dtype],
+            [self.terms[term].feature],
+        )
 
     def _cholesky(self, A, **kwargs):
         """
@@ -1636,12 +1653,13 @@ class GAM(Core, MetaTermMixin):
             shape = X[0].shape
 
             X = self._flatten_mesh(X, term=term)
+            edge_knots, dtypes, features = self._term_domains(term)
             X = check_X(
                 X,
                 n_feats=self.statistics_['m_features'],
-                edge_knots=self.edge_knots_,
-                dtypes=self.dtype,
-                features=self.feature,
+                edge_knots=edge_knots,
+                dtypes=dtypes,
+                features=features,
                 verbose=self.verbose,
             )
 
